@@ -4,13 +4,11 @@ namespace MythVerif.WsqTso
 open MythVerif.Wsq
 
 
-set_option maxHeartbeats 4000000 in
 theorem f_O_unlock (s s' : St) (rest : List Sto) : Inv s → s.bufO = .unlock :: rest →
     s' = applySto { s with bufO := rest } .unlock → Inv s' := by
   intro h hb hs
   exfalso
   cases hpc : s.opc
-  all_goals (cases h; simp only [hpc, ownerLocked, carry, resetting, ownerFlight] at *)
-  all_goals tso_absurd
+  all_goals tso_absurd_core h hpc
 
 end MythVerif.WsqTso
